@@ -423,3 +423,89 @@ func reachesGeneric(rt r.Type, seen map[r.Type]bool) bool {
 	}
 	return false
 }
+
+func isStdNamed(rt r.Type) bool {
+	if rt.Name() == "" || rt.PkgPath() == "" {
+		return rt.Name() != "" // predeclared
+	}
+	first := strings.SplitN(rt.PkgPath(), "/", 2)[0]
+	return !strings.Contains(first, ".") && !strings.HasPrefix(rt.PkgPath(), "verif/")
+}
+
+// children of a reflect type (what FromReflectType walks when it rebuilds a type from reflection)
+func rchildren(rt r.Type) []r.Type {
+	var l []r.Type
+	switch rt.Kind() {
+	case r.Ptr, r.Slice, r.Array, r.Chan:
+		l = append(l, rt.Elem())
+	case r.Map:
+		l = append(l, rt.Key(), rt.Elem())
+	case r.Func:
+		for i := 0; i < rt.NumIn(); i++ {
+			l = append(l, rt.In(i))
+		}
+		for i := 0; i < rt.NumOut(); i++ {
+			l = append(l, rt.Out(i))
+		}
+	case r.Struct:
+		for i := 0; i < rt.NumField(); i++ {
+			l = append(l, rt.Field(i).Type)
+		}
+	case r.Interface:
+		for i := 0; i < rt.NumMethod(); i++ {
+			l = append(l, rt.Method(i).Type)
+		}
+	}
+	return l
+}
+
+// isRecursive: the named type t reaches itself without passing through a named
+// standard-library type (those come from go/types, not from reflection)
+func isRecursive(t r.Type) bool {
+	seen := map[r.Type]bool{}
+	var walk func(x r.Type) bool
+	walk = func(x r.Type) bool {
+		for _, c := range rchildren(x) {
+			if c == t {
+				return true
+			}
+			if seen[c] || isStdNamed(c) {
+				continue
+			}
+			seen[c] = true
+			if walk(c) {
+				return true
+			}
+		}
+		return false
+	}
+	return walk(t)
+}
+
+// reachesEmulatedRecursive: rt is an unnamed composite over a recursive named type of a
+// package the importer cannot load: xreflect rebuilds such a type from reflection with the
+// placeholder xreflect.Forward (its emulation of recursive types), and composites over it
+// are approximations (ReflectType() []xreflect.Forward, cache entries replaced).
+func reachesEmulatedRecursive(rt r.Type) bool {
+	if rt.Name() != "" {
+		return false
+	}
+	seen := map[r.Type]bool{}
+	var walk func(x r.Type) bool
+	walk = func(x r.Type) bool {
+		for _, c := range rchildren(x) {
+			if seen[c] || isStdNamed(c) {
+				continue
+			}
+			seen[c] = true
+			if c.Name() != "" && isRecursive(c) {
+				return true
+			}
+			if walk(c) {
+				return true
+			}
+		}
+		return false
+	}
+	return walk(rt)
+}
